@@ -3,7 +3,7 @@
     ALL grammars; that the emitted text parses, type-checks, compiles and is gofmt-canonical is decided
     by running the Go tools on every file the correspondence runs generate (all eight option sets, plus
     streams for many rules, imports, header comments, odd characters, comments in predicates). *)
-From PegV Require Import Base.Tac Spec.Syntax Model.Analyses Model.EmitFacts Model.Emit Proofs.EmitProofs Proofs.EmitWF.
+From PegV Require Import Base.Tac Spec.Syntax Model.Analyses Model.EmitFacts Model.Emit Model.Link Proofs.EmitProofs Proofs.EmitWF Proofs.LinkProofs.
 Open Scope Z_scope.
 
 (** The type chosen for rule constants (and, since the fix, for the memo key's rule field) holds every
@@ -37,6 +37,16 @@ Theorem C08_labels_gotos_declarations :
     Forall (fun o => match o with Some F => fn_ok F | None => True end) (emit_all g ast inline asu (fun _ => false)).
 Proof. exact emit_all_wellformed. Qed.
 Print Assumptions C08_labels_gotos_declarations.
+
+(** ... and for every tree that Compile's first passes produce (Model/Link.v), names without a
+    definition included: there the dry pass also walks the slots of the undefined names and numbers the
+    labels behind them differently from the real pass, but only where no function contains a goto. *)
+Theorem C08_labels_gotos_declarations_linked :
+  forall bodies g ptx acts, link bodies = (g, ptx, acts) ->
+  forall ast inline asu undef,
+    Forall (fun o => match o with Some F => fn_ok F | None => True end) (emit_all g ast inline asu undef).
+Proof. exact emit_linked_wellformed. Qed.
+Print Assumptions C08_labels_gotos_declarations_linked.
 
 Local Open Scope nat_scope.
 (** The same facts for the code of any single expression, whatever labels the table says are used
